@@ -19,6 +19,9 @@ inline int atomicDec(volatile int* x) { return --*x; }
 inline int atomicInc(volatile int* x) { return InterlockedIncrement((long*)(x)); }
 inline int atomicDec(volatile int* x) { return InterlockedDecrement((long*)(x)); }
 
+#elif defined(ASL_VERIF) && (__has_builtin(__sync_add_and_fetch) || (defined(__GNUC__) && ASL_C_VER >= 40102))
+inline int atomicInc(int volatile* x) { ASL_VERIF_HOOK(1, x, 0); int r = __sync_add_and_fetch(x, 1); ASL_VERIF_HOOK(2, x, r); return r; }
+inline int atomicDec(int volatile* x) { ASL_VERIF_HOOK(3, x, 0); int r = __sync_sub_and_fetch(x, 1); ASL_VERIF_HOOK(4, x, r); return r; }
 #elif __has_builtin(__sync_add_and_fetch) || (defined(__GNUC__) && ASL_C_VER >= 40102)
 
 inline int atomicInc(int volatile* x) { return __sync_add_and_fetch(x, 1); }
